@@ -29,8 +29,15 @@ func genSerBM(c *Ctx) *BM {
 	r := c.R
 	o := GenOpts{MaxChunks: 6, HeavyP: 0.35}
 	if r.Chance(0.15) {
-		// 1..150 chunks with a couple of values each (chunk-count edges of reused receivers, header sizes)
+		// 1..150 chunks with a couple of values each (chunk-count edges of reused receivers, header sizes);
+		// sometimes 1000..1500 chunks or an exact multiple of 1024 (offset header = whole 4 KiB blocks)
 		n := 1 + r.Intn(150)
+		switch r.Intn(12) {
+		case 0:
+			n = 1000 + r.Intn(500)
+		case 1:
+			n = 1024 * (1 + r.Intn(2))
+		}
 		m := NewISet()
 		base := r.Range(0, 65535-uint64(n))
 		for k := uint64(0); k < uint64(n); k++ {
@@ -124,10 +131,38 @@ func (fw *failWriter) Write(p []byte) (int, error) {
 // previous contents for a reused receiver
 func reusedReceiver(c *Ctx) (*roaring.Bitmap, string) {
 	r := c.R
+	if r.Chance(0.15) {
+		// a receiver first sized exactly by an earlier decode and then grown by appends (yet another
+		// combination of capacities of the three parallel tables), optionally much larger
+		a := 1 + r.Intn(20)
+		if r.Chance(0.1) {
+			a = 1000 + r.Intn(500)
+		}
+		src := roaring.New()
+		for k := 0; k < a; k++ {
+			src.Add(uint32(k)<<16 | 7)
+		}
+		b := roaring.New()
+		if buf, err := src.ToBytes(); err == nil {
+			b.ReadFrom(bytes.NewReader(buf))
+		}
+		for k := 0; k < r.Intn(25); k++ {
+			b.Add(uint32(a+k)<<16 | uint32(r.Intn(65536)))
+		}
+		how := "previously-decoded-then-appended"
+		if r.Chance(0.3) {
+			b.Clear()
+			how += "-then-cleared"
+		}
+		return b, how
+	}
 	if r.Chance(0.3) {
 		// a receiver whose tables grew by appends to N chunks (capacities of the three parallel slices
 		// round to different allocation classes), optionally cleared
 		n := 1 + r.Intn(150)
+		if r.Chance(0.1) {
+			n = 1000 + r.Intn(500)
+		}
 		b := roaring.New()
 		for k := 0; k < n; k++ {
 			b.Add(uint32(k)<<16 | uint32(r.Intn(65536)))
